@@ -609,9 +609,20 @@ class Interp:
         self._tmp = n + 1
         return self.sset(st, 0, n, value), Ref(0, n)
 
-    def call_named(self, name, args, st, depth, crate="anything"):
-        """Call a function by its resolved path with argument values (domain first, std models, then inlining)."""
+    def call_named(self, name, args, st, depth, crate="anything", skip_std=False):
+        """Call a function by its resolved path with argument values (domain first, std models, then inlining).
+        skip_std: the caller *is* a std model that wants the function's own body (no way back into the std models)."""
         t = {"k": "call", "callee": {"k": "direct", "path": name, "resolved": name}, "args": [], "target": 0, "dest": {"local": 0, "proj": []}}
+        if skip_std:
+            self._cur_depth = depth
+            self._no_std = getattr(self, "_no_std", 0) + 1
+            prev = getattr(self, "_no_std_name", None)
+            self._no_std_name = name
+            try:
+                return self._dispatch(name, args, st, depth, t, None, None, crate, 0)
+            finally:
+                self._no_std -= 1
+                self._no_std_name = prev
         return self._dispatch(name, args, st, depth, t, None, None, crate, 0)
 
     def _call(self, body, frame, t, sp, st, depth):
@@ -695,6 +706,8 @@ class Interp:
     # ---- std models shared by all domains ---------------------------------------------------------
     def std_call(self, name, args, st):
         n = name
+        if getattr(self, "_no_std", 0) and getattr(self, "_no_std_name", None) == name:
+            return None
         if n.endswith("as std::clone::Clone>::clone") or n == "std::clone::Clone::clone":
             return [(self.read_ref(st, args[0]), st)]
         if n.endswith("as std::ops::Try>::branch") or n == "std::ops::Try::branch":
